@@ -26,10 +26,11 @@ HeaderDecl(section, h) ==
        IN IF good = {} THEN <<h>>
           ELSE Append(CHOOSE p \in good : \A q \in good : Len(q) <= Len(p), h)
 
-VARIABLES section, steps
-vars == <<section, steps>>
-Init == section = <<>> /\ steps = 0
-Header(h) == steps < MaxDepth /\ section' = HeaderOp(section, h) /\ steps' = steps + 1
+VARIABLES section, steps, prev, hdr      \* prev/hdr record the last step so that every dumped state is one (input, output) row
+vars == <<section, steps, prev, hdr>>
+Init == section = <<>> /\ steps = 0 /\ prev = <<>> /\ hdr = ""
+Header(h) == /\ steps < MaxDepth /\ section' = HeaderOp(section, h) /\ steps' = steps + 1
+             /\ prev' = section /\ hdr' = h
 Next == \E h \in Names : Header(h)
 Spec == Init /\ [][Next]_vars
 
